@@ -754,6 +754,9 @@ func (e *Exec) afterCallAnchors(fr *frame, fn *ssa.Function, x *ssa.Call, reach 
 	match := func(anchor string) bool { return anchor == key || (ordKey != "" && anchor == ordKey) || (lastKey != "" && anchor == lastKey) }
 	for _, gu := range fr.spec.GhostUpd {
 		if match(gu.Anchor) {
+			if fn.Pkg != nil && !strings.Contains(fn.Pkg.Pkg.Path(), "FrankyGo") {
+				e.trusted[fmt.Sprintf("ghost update of %s at the call of %s.%s: the meaning given to that library call is an assumed contract of package %s", gu.Var, fn.Pkg.Pkg.Name(), funcKey(fn), fn.Pkg.Pkg.Path())] = true
+			}
 			env := fr.specEnv(st)
 			env.result = res
 			env.args = args
